@@ -84,6 +84,8 @@ type Contract struct {
 	Captures []*Clause
 	// function-typed parameters whose calls are assumed not to write the heap (A-CALLBACK)
 	Callbacks map[string]bool
+	// lenient contracts: index, slice-bounds and make-length conditions are proved all the same
+	Bounds bool
 }
 
 type ContractSet struct {
@@ -94,12 +96,12 @@ type ContractSet struct {
 	files    []string
 }
 
-var directiveRe = regexp.MustCompile(`^([a-z-]+)(\[[A-Za-z0-9_.:@,-]+\])?(\s+|$)`)
+var directiveRe = regexp.MustCompile(`^([a-z-]+)(\[[A-Za-z0-9_.:@,$-]+\])?(\s+|$)`)
 
 var knownDirectives = map[string]bool{"func": true, "extern": true, "property": true, "requires": true, "ensures": true,
 	"modifies": true, "loop": true, "spec": true, "nooverflow": true, "nopanic": true, "inline": true, "assume": true, "pure": true,
 	"noreturn": true, "nilrecv": true, "lemma": true, "var": true, "assumes": true, "shows": true, "uses": true, "iface": true,
-	"bounded": true, "note": true, "ghost": true, "hint": true, "package": true, "opaque": true, "reveal": true, "guard": true, "check": true, "lenient": true, "depends": true, "captures": true, "initfact": true, "callback": true}
+	"bounded": true, "note": true, "ghost": true, "hint": true, "package": true, "opaque": true, "reveal": true, "guard": true, "check": true, "lenient": true, "depends": true, "captures": true, "initfact": true, "callback": true, "bounds": true}
 
 // loadContracts parses every zz_verif_contracts.go below root/src.
 func loadContracts(root string) (*ContractSet, error) {
@@ -326,6 +328,8 @@ func (cs *ContractSet) parseFile(path, pkg string) error {
 			cur.NilRecvOK = true
 		case "lenient":
 			cur.Lenient = true
+		case "bounds":
+			cur.Bounds = true
 		case "callback":
 			if cur.Callbacks == nil {
 				cur.Callbacks = map[string]bool{}
